@@ -102,3 +102,7 @@ impl<T: Iterator<Item = char>> Input for BufferedInput<T> {
         self.buffer[n]
     }
 }
+
+#[cfg(kani)]
+#[path = "/verif/kani/direct/input_buffered_harness.rs"]
+pub(crate) mod verif_harness;
